@@ -113,6 +113,13 @@ func Catch(f func() string) (out string, panicked bool, msg string) {
 	return f(), false, ""
 }
 
+func b2i(b bool) int {
+	if b {
+		return 1
+	}
+	return 0
+}
+
 func Hex(b []byte) string {
 	if len(b) == 0 {
 		return "-"
